@@ -55,6 +55,11 @@ CHECKS = {
    technique="TLA+ machine of the self-hosting chain (FoBootstrap.tla: Build / Transpile / Fmt / Compare over two compiler generations), model-checked on an abstract repository; the real chain is executed in a scratch copy and its event log with SHA-256 hashes is validated by TLC (FoBootstrapTrace.tla), which reports differing and uncovered files",
    text="The harness builds fc from the working tree, runs the repository's own recipes (fc_all.sh, per-sample, the tool, README.md via the rebuilt tool), rebuilds the compiler from the regenerated files and repeats; every step is an event with content hashes. TLC validates the log against the bootstrap machine: each event must be an enabled action in order (compare only after transpile+format, compiler 2 built from exactly out[1]), every listed source must be compared in both generations, and every comparison must be equal. The quantifier (35 files x 2 generations) is finite and covered completely in both tiers.",
    note="Thinly served by TLA+ (one concrete trace): the byte comparison is by SHA-256 in the harness, the specification contributes ordering / coverage / provenance obligations and the verdict. Trusted: Go toolchain, gofmt. samples/*.fo not in filelist.txt are outside the property (gen_noarg_funcall.go is stale on the pinned tree)."),
+ "C16": dict(
+   category="model_checking", design_ref="4.16", engine="FoDriver",
+   technique="TLA+ machine of the fc driver (FoDriver.tla) model-checked for safety and termination; fault vectors, a mutation campaign and scanner-critical buffers run through the real binary; black-box observations validated by TLC, which infers the unlogged read/parse/write outcomes (FoDriverTrace.tla)",
+   text="The driver machine (announce, read, parse, write per argument, exit) is model-checked: exit 0 implies every requested file written, a failure is clean (diagnostic, nothing for the offending and later files), every behaviour terminates. Every run of the real binary - fault vectors (missing input, directory, unwritable destination, syntax error, infinite type, .foi), thousands of mutants of valid programs (truncation at every offset, token deletion/duplication/swap, indentation damage, unterminated constructs, stray bytes), self-referential / ill-typed / extreme definitions and short buffers over the scanner-critical alphabet - is observed black-box and accepted only if some behaviour of the machine explains it; hangs (20 s), Go runtime fatal errors and silent failures are rejections.",
+   note="Trusted: the 20 s time-out as non-termination on inputs of this size; stderr classification of Go fatal errors; a gen file counts as complete when it exists and is non-empty. The character-level scanner model (FoLex) of the design is not built yet; scanner loops are exercised through the binary only."),
 }
 
 def cmd(pid, tier):
